@@ -129,8 +129,17 @@ def explore(chk, rng, n_tables, reqs_per_table, tag):
                     return None
                 if kind == "wrong":
                     return rng.choice(["a string", 5, {"a": 1}, request, [1]])
-                raise rng.choice([ValueError, KeyError, RuntimeError, ZeroDivisionError])("handler failure")
-            handler.__name__ = "handler_%d" % hid
+                how = rng.choice(["msg", "msg", "noargs", "class", "assert"])
+                exc = rng.choice([ValueError, KeyError, RuntimeError, ZeroDivisionError, NotImplementedError])
+                if how == "msg":
+                    raise exc("handler failure")
+                if how == "noargs":
+                    raise exc()
+                if how == "class":
+                    raise exc
+                assert False
+            if hid % 3:
+                handler.__name__ = "handler_%d" % hid          # the others all share the name `handler`
             return handler
 
         n_regs = rng.choice([1, 2, 4, 6, 9])
